@@ -7,14 +7,19 @@ ops (macro ops executed by `harness/hcore/src/bin/timers.rs` at quiescent points
   `case <n> [tl]`                 fresh runtime, fresh target (`tl`: a thread-local actor on its own, frozen, thread); clock 0
   `sa <p>` `si <p>` `ea <p>` `ka <p>`   send_after / send_interval / exit_after / kill_after, period p µs
   `dsa <p>` `dsi <p>` `dea <p>` `dka <p>`   the same four through a `DerivedActorRef` (same model steps)
+  `csa <p>` `csi <p>` `cea <p>` `cka <p>`   the free functions `ractor::time::*` called with the target's `ActorCell`
+  `xsa <p>` `xsi <p>`             the free functions send_after / send_interval with a message type that is not the target's
   `adv <d>`                       tokio::time::advance(d µs), run to quiescence   (every time and duration is in µs)
   `advabort <d> <i>`              clock += d, abort timer i before the time driver runs
   `advstop <d>` `advkill <d>` `advdrain <d>`   clock += d, then the API call on the target
   `abort <i>` `stop` `kill` `drain`
   `hold` `psrelease`              gate the target's `post_stop` / open the gate
+  `starthold` (first op of a case) `started`   the target sits in a gated `post_start` (status `Starting`) / the gate opens
+  `fail` `advfail <d>`            cast a message on which the target's handler returns `Err` (the actor FAILS)
+  `drop <i>` `advdrop <d> <i>`    drop the `JoinHandle` of timer i (the task is detached; an `AbortHandle` is kept)
 
 observation after each op (model and implementation, compared verbatim):
-  `t=<now> att=<id.k@t,…|-> hd=<id.k@t,…|-> res=<P|ok|err|cancelled,…|-> tgt=<Running|PostStop@<t>|Stopped:<reason>@<t>>`
+  `t=<now> att=<id.k@t,…|-> hd=<id.k@t,…|-> res=<P|ok|err|cancelled|panic|dP|dF,…|-> tgt=<Running|PostStop@<t>|Stopped:<reason>@<t>>`
   (`PostStop@t`: the message loop ended at `t` and the gated `post_stop` is running)
 -/
 
@@ -27,11 +32,28 @@ structure DState where
   bad : Bool := false
 
 def showRes : Res → String
-  | .pending => "P" | .ok => "ok" | .err => "err" | .cancelled => "cancelled"
+  | .pending => "P" | .ok => "ok" | .err => "err" | .cancelled => "cancelled" | .panicked => "panic"
 
 def parseRes? : String → Option Res
   | "P" => some .pending | "ok" => some .ok | "err" => some .err | "cancelled" => some .cancelled
+  | "panic" => some .panicked
+  | "err:InvalidActorType" => some .err
   | _ => none
+
+/-- what the owner of timer `i`'s handle can read: the task's answer, or — once the `JoinHandle` is
+dropped — only whether the task is still there (`AbortHandle::is_finished`) -/
+inductive HObs | res (r : Res) | dropped (finished : Bool)
+  deriving DecidableEq
+
+def showHObs : HObs → String
+  | .res r => showRes r
+  | .dropped false => "dP"
+  | .dropped true => "dF"
+
+def parseHObs? : String → Option HObs
+  | "dP" => some (.dropped false)
+  | "dF" => some (.dropped true)
+  | w => (parseRes? w).map HObs.res
 
 def showEvs (l : List (Nat × Nat × Nat)) : String :=
   if l.isEmpty then "-" else
@@ -52,7 +74,7 @@ def showTarget (T : Target) : String :=
   match T.exit, T.stopping with
   | some (r, t), _ => s!"Stopped:{r.render}@{t}"
   | none, some (_, ts) => s!"PostStop@{ts}"
-  | none, none => "Running"
+  | none, none => if T.starting then (if T.draining then "Draining" else "Starting") else "Running"
 
 /-- attempts of the sending timers beyond the lengths recorded in `old` -/
 def newAttempts (old new : List Timer) : List (Nat × Nat × Nat) :=
@@ -65,7 +87,11 @@ def newAttempts (old new : List Timer) : List (Nat × Nat × Nat) :=
 def observe (old new : State) : String :=
   let att := newAttempts old.timers new.timers
   let hd := new.target.handled.drop old.target.handled.length
-  let res := if new.timers.isEmpty then "-" else ",".intercalate (new.timers.map (showRes ·.res))
+  let res := if new.timers.isEmpty then "-" else ",".intercalate (new.timers.zipIdx.map fun (τ, i) =>
+    if new.dropped.contains i then showHObs (.dropped (τ.res != .pending))
+    -- the wrong message type: `MessagingErr::InvalidActorType` (not `SendErr`)
+    else if !τ.typed && τ.res == .err then "err:InvalidActorType"
+    else showRes τ.res)
   s!"t={new.now} att={showEvs att} hd={showEvs hd} res={res} tgt={showTarget new.target}"
 
 def parseMOp? (ws : List String) : Option MOp :=
@@ -80,6 +106,14 @@ def parseMOp? (ws : List String) : Option MOp :=
   -- `DerivedActorRef::exit_after / kill_after`: must behave exactly like the two above
   | ["dea", p] => p.toNat?.map (MOp.create .exitAfter)
   | ["dka", p] => p.toNat?.map (MOp.create .killAfter)
+  -- the free functions `ractor::time::*` called directly with an `ActorCell`
+  | ["csa", p] => p.toNat?.map (MOp.create .sendAfter)
+  | ["csi", p] => p.toNat?.map (MOp.create .interval)
+  | ["cea", p] => p.toNat?.map (MOp.create .exitAfter)
+  | ["cka", p] => p.toNat?.map (MOp.create .killAfter)
+  -- ... with a message type that is not the target's
+  | ["xsa", p] => p.toNat?.map (MOp.createX .sendAfter)
+  | ["xsi", p] => p.toNat?.map (MOp.createX .interval)
   | ["adv", d] => d.toNat?.map MOp.adv
   | ["advabort", d, i] => do pure (MOp.advAbort (← d.toNat?) (← i.toNat?))
   | ["advstop", d] => d.toNat?.map MOp.advStop
@@ -87,6 +121,15 @@ def parseMOp? (ws : List String) : Option MOp :=
   | ["advdrain", d] => d.toNat?.map MOp.advDrain
   | ["abort", i] => i.toNat?.map MOp.abort
   | ["stop"] => some .stop | ["kill"] => some .kill | ["drain"] => some .drain
+  | ["drop", i] => i.toNat?.map MOp.dropHandle
+  | ["advdrop", d, i] => do pure (MOp.advDrop (← d.toNat?) (← i.toNat?))
+  | ["starthold"] => some .startHold
+  | ["started"] => some .started
+  | ["fail"] => some .fail
+  | ["advfail", d] => d.toNat?.map MOp.advFail
+  -- the handler PANICS instead of returning `Err`: ractor catches it, the same `ActorFailed`
+  | ["failp"] => some .fail
+  | ["advfailp", d] => d.toNat?.map MOp.advFail
   | ["hold"] => some .hold
   | ["psrelease"] => some .psrelease
   | _ => none
@@ -95,6 +138,7 @@ def parseReason? (s : String) : Option Reason :=
   if s == "manual" then some .manual
   else if s == "Drained" then some .drained
   else if s == "killed" then some .killed
+  else if s == "<failed> poison" then some .failed
   else if s.startsWith "Exit after " && s.endsWith "ms" then
     (((s.drop 11).dropEnd 2).toString.toNat?).map Reason.exitAfter
   else none
@@ -103,7 +147,7 @@ structure ImplObs where
   t : Nat
   att : List (Nat × Nat × Nat)
   hd : List (Nat × Nat × Nat)
-  res : List Res
+  res : List HObs
   exit : Option (Reason × Nat)
   /-- the target reported that its message loop ended at this instant and `post_stop` runs -/
   ps : Option Nat := none
@@ -121,11 +165,11 @@ def parseImpl? (s : String) : Option ImplObs :=
       let att ← parseEvs? (← field? att "att=")
       let hd ← parseEvs? (← field? hd "hd=")
       let res ← field? res "res="
-      let res ← if res == "-" then some [] else (splitOnChar res ',').mapM parseRes?
+      let res ← if res == "-" then some [] else (splitOnChar res ',').mapM parseHObs?
       let ps ← match field? tgt "PostStop@" with
         | some ts => ts.toNat?.map some
         | none => some none
-      let exit ← if tgt == "Running" || ps.isSome then some none else
+      let exit ← if tgt == "Running" || tgt == "Starting" || tgt == "Draining" || ps.isSome then some none else
         match field? tgt "Stopped:" with
         | some rest =>
           match rest.splitOn "@" with
@@ -143,6 +187,7 @@ def absorb (v : State) (mop : MOp) (o : ImplObs) : State × List String := Id.ru
   -- a creation op adds a timer created at the observed clock value
   match mop with
   | .create k p => timers := timers ++ [{ kind := k, period := p, created := o.t, armed := some o.t }]
+  | .createX k p => timers := timers ++ [{ kind := k, period := p, created := o.t, armed := some o.t, typed := false }]
   | _ => pure ()
   -- attempts (message builder calls), in order of k
   let att := o.att.toArray.qsort (fun x y => x.1 < y.1 || (x.1 == y.1 && x.2.1 < y.2.1))
@@ -152,11 +197,36 @@ def absorb (v : State) (mop : MOp) (o : ImplObs) : State × List String := Id.ru
       if k != τ.sentAt.length + 1 then errs := errs ++ [s!"attempt-sequence timer={i} k={k}"]
       timers := timers.set i { τ with sentAt := τ.sentAt ++ [t] }
     | none => errs := errs ++ [s!"attempt-unknown-timer {i}"]
+  -- the instant the target stopped accepting, as far as this observation tells
+  let closeNow : Option Nat := match v.target.closedAt with
+    | some tc => some tc
+    | none => match o.ps, o.exit with
+      | some ts, _ => some ts
+      | none, some (_, te) => some te
+      | none, none => none
+  let aborted : Option Nat := match mop with
+    | .abort i => some i | .advAbort _ i => some i | _ => none
   -- handle results
   if o.res.length != timers.length then errs := errs ++ ["res-length"]
-  for (r, i) in o.res.zipIdx do
+  for (h, i) in o.res.zipIdx do
     match timers[i]? with
     | some τ =>
+      -- a dropped handle tells nothing but "the task is gone": the answer nobody can read any more is
+      -- reconstructed as the one that is consistent with what the message builder / the target saw
+      -- (so the handle clauses of the oracle are vacuous for it, all the others are not)
+      let r : Res := match h with
+        | .res r => r
+        | .dropped false => .pending
+        | .dropped true =>
+          if τ.res != .pending then τ.res
+          else if aborted == some i then .cancelled
+          else if τ.kind == .interval && τ.period == 0 then .panicked
+          else if τ.kind == .sendAfter && !τ.typed then .err
+          else if τ.kind == .sendAfter then
+            (match closeNow, τ.sentAt.getLast? with
+             | some tc, some t => if tc < t then .err else .ok
+             | _, _ => .ok)
+          else .ok
       if τ.res == .pending && r != .pending then
         -- exit_after / kill_after have no message builder: they acted when they finished ok
         let sent := if !τ.kind.sends && r == .ok then τ.sentAt ++ [o.t] else τ.sentAt
@@ -166,9 +236,18 @@ def absorb (v : State) (mop : MOp) (o : ImplObs) : State × List String := Id.ru
   let T := v.target
   let T := match mop with
     | .stop | .advStop _ => { T with manualStop := true }
+    | .fail | .advFail _ => { T with manualFail := true }
+    | .startHold => { T with starting := true }
+    | .started => { T with starting := false }
+    | .drain | .advDrain _ => { T with draining := true }
     | .kill | .advKill _ => { T with manualKill := true }
     | _ => T
   let T := { T with handled := T.handled ++ o.hd }
+  -- `drain()` publishes `Draining` synchronously: a live target stops accepting at the CALL (audit: so that
+  -- `acceptOk` / `closedOk` judge sends made between `drain()` and the drained exit on their own)
+  let T := match mop with
+    | .drain | .advDrain _ => if T.exit.isNone then { T with closedAt := some (T.closedAt.getD o.t) } else T
+    | _ => T
   -- the message loop ended (observed from inside `post_stop`): nothing is accepted from then on
   let T := match o.ps with
     | some ts => { T with closedAt := some (T.closedAt.getD ts) }
@@ -182,7 +261,9 @@ def absorb (v : State) (mop : MOp) (o : ImplObs) : State × List String := Id.ru
       errs := errs ++ ["exit-vanished"]
       pure T
     | none, none => pure T
-  return ({ now := o.t, target := T, timers := timers, visits := v.visits ++ [o.t] }, errs)
+  let dropped := match mop with
+    | .dropHandle i => v.dropped ++ [i] | .advDrop _ i => v.dropped ++ [i] | _ => v.dropped
+  return ({ now := o.t, target := T, timers := timers, visits := v.visits ++ [o.t], dropped := dropped }, errs)
 
 def firstBad (s : State) (f : State → Timer → Bool) : String :=
   match (s.timers.zipIdx.filter fun (τ, _) => !f s τ) with
@@ -204,8 +285,16 @@ def step (st : DState) (op impl : String) : DState × StepOut :=
         let (v', errs) := absorb st.v mop o
         let orc := errs
           ++ (if v'.timers.all (diesOk v') then [] else [s!"C12.dies {firstBad v' diesOk}"])
-          ++ (if ok v' then [] else [s!"C12.ok {firstBad v' timerOk}"])
-          ++ (if okPrompt v' then [] else [s!"C12.okPrompt {firstBad v' timerPromptOk}"])
+          ++ (if ok1 v' then [] else [s!"C12.ok {firstBad v' timerOk}"])
+          -- delivery level: a message (timer id, k) handled twice
+          ++ (if deliveredOk v' then [] else ["C12.delivered handled-twice"])
+          ++ (if sentBeforeCloseOk v' then [] else ["C12.delivered sent-after-close"])
+          ++ (if reasonSrcOk v' then [] else ["C12.reason no-source"])
+          -- a running target has handled every attempt by the quiescent point
+          ++ (if allHandledOk v' then [] else ["C12.delivered attempt-not-handled"])
+          ++ (if okPrompt1 v' then [] else [s!"C12.okPrompt {firstBad v' timerPromptOk}"])
+          -- the positive half: a kill_after / exit_after that has acted and a target that is still there
+          ++ (if v'.timers.all (stopsOk v') then [] else [s!"C12.stops {firstBad v' stopsOk}"])
         let resChanged := (m'.timers.map (·.res)).take st.m.timers.length != st.m.timers.map (·.res)
         let nt := !(newAttempts st.m.timers m'.timers).isEmpty || resChanged
                     || (st.m.target.exit.isNone && m'.target.exit.isSome)
@@ -213,5 +302,130 @@ def step (st : DState) (op impl : String) : DState × StepOut :=
 
 def run (ops impl : Array String) : IO Tally :=
   replay ({} : DState) step ops impl
+
+/-! ### Free-running traces (model name `c12-free`; harness `hcoreas/timers_as`, async-std backend)
+
+The timers run on a REAL clock on async-std's executor: there are no quiescent points and no virtual time,
+so the model is NOT replayed (no DIFF); the implementation's history is folded into a `Timers.State` by the
+same `absorb` and judged by the clause functions of `Timers.ok` that are sound for observed instants:
+
+* every instant in the trace is read from one monotonic clock by the task the event happens in (message
+  builder, target handler, supervisor of the target), the `t=` of an op after the snapshot of the events; the
+  `t=` of a creation op and of `stop`/`kill`/`drain` is read BEFORE the API call (a lower bound of the call);
+* `earlyOk`, `shotOk`, `finOk`, `closedOk`, `handledOk`, `reasonOk` verbatim; `acceptOk` with the UPPER bound of
+  the instant the target stopped accepting (its observed exit) for a handle that said `Ok`; for `Err` its clause
+  "the target had stopped accepting" becomes: a close had begun (`lo`: the earliest closing API call / earliest
+  legal firing of an exit_after / kill_after) no later than the handle was seen finished (the attempt's own stamp
+  is taken before the failing send and may precede the close);
+  in `reasonOk` an exit_after / kill_after timer counts from its earliest legal firing `created + period`
+  (it has no message builder whose call could be time-stamped): exits are never early;
+* liveness with a generous real-time bound `slack`: `await i` must find timer `i` finished (bounded wait in the
+  harness, event-driven), a one-shot timer fires and the k-th interval message is handled no later than
+  `created + k·period + slack`, an interval is gone no later than `exit + period + slack`.
+
+ops: `case n` | `sa|si|ea|ka|dsa|dsi|dea|dka p` | `await i` | `awaithd i k` | `abort i` | `stop|kill|drain`
+(the API call only) | `awaitexit`. -/
+
+def slack : Nat := 3000000
+
+structure FState where
+  v : State := {}
+  /-- lower bound of the instant the target stopped accepting -/
+  lo : Option Nat := none
+
+def minOpt (a : Option Nat) (b : Nat) : Option Nat :=
+  match a with | some x => some (min x b) | none => some b
+
+def freeTimerOk (lo hi : Option Nat) (now : Nat) (τ : Timer) : Bool :=
+  earlyOk τ.created τ.period 0 τ.sentAt
+  && τ.sentAt.all (fun t => decide (t ≤ now))
+  && shotOk τ
+  && (τ.kind.oneShot || τ.res != .err)
+  && finOk now τ
+  && closedOk hi τ
+  && (match τ.res with
+      | .ok => acceptOk hi τ
+      -- `Err`: the attempt's stamp is taken in the message builder, i.e. BEFORE the failing send, so it may
+      -- precede the close; what is certain is that a close had begun (`lo`) by the time the handle was seen finished
+      | .err => τ.kind != .sendAfter ||
+          (match lo, τ.finAt with
+           | some l, some tf => decide (l ≤ tf)
+           | _, _ => false)
+      | _ => true)
+
+/-- an exit_after / kill_after timer, for `reasonOk`: acts no earlier than `created + period` -/
+def legalFiring (τ : Timer) : Timer :=
+  if τ.kind.sends || τ.res == .cancelled then τ else { τ with sentAt := [τ.created + τ.period] }
+
+def freeTargetOk (s : State) : Bool :=
+  (match s.target.exit with
+   | some (r, te) => reasonOk { s with timers := s.timers.map legalFiring } r te && decide (te ≤ s.now)
+   | none => true)
+  && s.target.handled.all (handledOk s)
+
+def freeLate (s : State) : List String :=
+  (s.timers.zipIdx.map fun (τ, i) =>
+    -- one-shot: finished (fired) in time; interval: k-th message handled in time
+    (if τ.kind.oneShot && τ.res == .ok && !(τ.sentAt.all fun t => decide (t ≤ τ.created + τ.period + slack))
+      then [s!"C12.late timer={i}"] else [])
+    ++ (if τ.kind == .interval &&
+          !(s.target.handled.all fun h => h.1 != i || decide (h.2.2 ≤ τ.created + h.2.1 * τ.period + slack))
+        then [s!"C12.late-interval timer={i}"] else [])
+    ++ (match s.target.closedAt, τ.finAt with
+        | some tc, some tf =>
+          if τ.kind == .interval && τ.res == .ok && decide (tc + τ.period + slack < tf) && decide (τ.created ≤ tc)
+          then [s!"C12.dies-late timer={i}"] else []
+        | _, _ => [])).flatten
+
+def parseFreeOp? (ws : List String) : Option MOp :=
+  match ws with
+  | ["await", _] => some (.adv 0)
+  | ["awaithd", _, _] => some (.adv 0)
+  | ["awaitexit"] => some (.adv 0)
+  | _ => parseMOp? ws
+
+def stepFree (st : FState) (op impl : String) : FState × StepOut :=
+  match (words op).filter (fun w => !w.startsWith "h=") with
+  | "case" :: _ => ({}, { model := impl })
+  | ws =>
+    match parseFreeOp? ws, parseImpl? impl with
+    | none, _ => (st, { model := "bad-op" })
+    | some _, none => (st, { model := impl, oracle := ["unparsable"] })
+    | some mop, some o =>
+      let (v', errs) := absorb st.v mop o
+      -- lower bound of the close: the earliest closing call, the earliest legal firing of ea / ka
+      let lo := match mop with
+        | .stop | .kill | .drain => minOpt st.lo o.t
+        | .create k p => if k == .exitAfter || k == .killAfter then minOpt st.lo (o.t + p) else st.lo
+        | _ => st.lo
+      let hi := v'.target.closedAt
+      let live : List String := match ws with
+        | ["await", i] =>
+          (match i.toNat? with
+           | some i => (match v'.timers[i]? with
+              | some τ => if τ.res == .pending then [s!"C12.live timer={i}"] else []
+              | none => ["await-unknown-timer"])
+           | none => ["bad-op"])
+        | ["awaithd", i, k] =>
+          (match i.toNat?, k.toNat? with
+           | some i, some k =>
+             let got := v'.target.handled.any fun h => h.1 == i && h.2.1 == k
+             let excused := lo.isSome || (match v'.timers[i]? with | some τ => τ.res != .pending | none => false)
+             if got || excused then [] else [s!"C12.live-interval timer={i} k={k}"]
+           | _, _ => ["bad-op"])
+        | ["awaitexit"] => if v'.target.exit.isSome || lo.isNone then [] else ["C12.live-exit"]
+        | _ => []
+      let orc := errs
+        ++ (if v'.timers.all (freeTimerOk lo hi v'.now) then []
+            else [s!"C12.ok {firstBad v' (fun s τ => freeTimerOk lo hi s.now τ)}"])
+        ++ (if freeTargetOk v' then [] else ["C12.ok target"])
+        ++ freeLate v' ++ live
+      let nt := !o.att.isEmpty || !o.hd.isEmpty
+                  || (v'.timers.map (·.res)).take st.v.timers.length != st.v.timers.map (·.res)
+                  || (st.v.target.exit.isNone && v'.target.exit.isSome)
+      ({ v := v', lo := lo }, { model := impl, oracle := orc, nontrivial := nt })
+
+def runFree (ops impl : Array String) : IO Tally :=
+  replay ({} : FState) stepFree ops impl
 
 end Driver.C12
